@@ -246,7 +246,9 @@ def slice_model(it, recv: VStr, lo, hi):
 def index_model(it, recv: VStr, idx: VInt):
     n = z3.Length(recv.t)
     i = z3.If(idx.t < 0, n + idx.t, idx.t)
-    if not it.path.branch(z3.And(0 <= i, i < n)):
+    if it.spec_mode:
+        pass  # specification text: an index outside the string denotes the empty string / code -1 (z3's total str.at)
+    elif not it.path.branch(z3.And(0 <= i, i < n)):
         it.raise_builtin("IndexError")
     if recv.b:
         return VInt(z3.StrToCode(z3.SubString(recv.t, i, 1)))
